@@ -15,8 +15,11 @@ from harness import common as C
 PROP = "C06"
 COQ_TARGETS = ["Props/C06.vo", "Extract/ExtractC06.vo"]
 TRUSTED = [
-    "Model/RefSplice.v (replace_ref, _remover, the regular expression as an explicit backtracking scanner, the "
-    "digits-only-reference quantifier reading, the {ref} scanner) and Model/Assemble.v (_detect_column_type, "
+    "the check follows the repaired code (fix: commits a455136 37fb060 a2f08b3 2ad4134 a8ad4f5 fd59dc0): the model is run "
+    "at fixed=true; fixed=false (the unrepaired code, incl. the quantifier reading of digits-only references) is kept "
+    "for the record theorems and is checkable with VERIF_C06_FIXED=0 against an unpatched tree",
+    "Model/RefSplice.v (replace_ref, _remover, the regular expression as an explicit backtracking scanner with the "
+    "one-occurrence-at-a-time loop, the {ref} scanner) and Model/Assemble.v (_detect_column_type, "
     "_finalize_mapping, get_transformers, _category_handler, _value_handler, _handle_transforms, "
     "_handle_curly_braces_refs, combine_dataframe, series_a/dataframe_a) are hand transcriptions tied by the "
     "correspondence run",
@@ -28,17 +31,30 @@ TRUSTED = [
     "Sidecar.get_column_refs is an input of the model (theorems quantify over every order)",
 ]
 ASSUMPTIONS = [
-    "row_is_union, row_order, deterministic, inputs_unchanged, na_is_removed(fixed) are proved for all tables and "
-    "sidecars of the model; splice_tree/splice_well_delimited are kernel-evaluated exhaustively for every template "
+    "row_is_union, row_order, deterministic, inputs_unchanged, na_is_removed, never-raises, skipped cells contribute "
+    "nothing are proved for all tables and sidecars of the model of the repaired code; splice_tree/splice_well_delimited are kernel-evaluated exhaustively for every template "
     "over {a,blank,',','(',')',{r}} up to length 7 (bounded, as stated in the theorems)",
     "tables are text cells; DataFrame index labels are not part of the model (a non-default index is exercised on "
-    "the implementation only, finding C06-F6); file loading (read_csv, '' -> n/a) is trusted pandas behaviour",
+    "the implementation and checked against the statement only); file loading (read_csv, '' -> n/a) is trusted pandas behaviour",
     "property oracle domain: sidecars that the HED sidecar rules accept structurally (no nested/self references, "
     "references name non-ignored table columns and stand as whole tags, well-delimited templates); anything else is "
     "compared with the model only",
 ]
 
 NA = "n/a"
+# 1 (default): /repo carries the six fix: commits (a455136 37fb060 a2f08b3 2ad4134 a8ad4f5 fd59dc0); the check follows
+# the repaired code: model at fixed=true everywhere, the oracle demands the full statement.
+# 0: the unrepaired code (VERIF_REPO must point at a tree without those commits): model at fixed=false, failures of the
+# classes C06-F1..F6 are attributed to the recorded (now repaired) defects.
+FIXED = int(os.environ.get("VERIF_C06_FIXED", "1"))
+LEGACY_FINDINGS = {
+    "C06-F1": "an empty referenced-column text (n/a/empty/unknown categorical cell) substituted literally: '{cat}, Square' -> ', Square'",
+    "C06-F2": "digits-only reference used un-escaped in the pattern ({1} is a quantifier): 'Red, {1}, Blue' -> 'Red{1}Blue'; {0} raises",
+    "C06-F3": "empty cell of a value column not skipped: 'Label/#' -> 'Label/'",
+    "C06-F4": "removed reference preceded only by blanks leaves the following comma: ' {val}, Square' -> ', Square'",
+    "C06-F5": "same reference twice with only delimiters between, cell n/a: '({val}, {val})' -> '()'",
+    "C06-F6": "DataFrame with a non-default index assembled permuted / as 'nan' once a reference names a table column",
+}
 SYMS = ["a", " ", ",", "(", ")"]
 
 
@@ -427,8 +443,9 @@ def oracle(case, r, res, counts):
     if "exn" in r:
         if dom is None:
             fid = None
-            for row in loaded_rows:
-                fid = fid or classify(case, loaded_cols, row, index_default)
+            if not FIXED:
+                for row in loaded_rows:
+                    fid = fid or classify(case, loaded_cols, row, index_default)
             res.report("never-raises", pub, r["exn_text"], fid=fid if fid in ("C06-F2", "C06-F6") else None)
         return
     # same answer every time
@@ -451,7 +468,8 @@ def oracle(case, r, res, counts):
         elif parse_tree(got) != exp:
             bad = ("row-is-union", f"row {i}: got {got!r} expected tree {exp!r}")
         if bad:
-            fid = classify(case, loaded_cols, row, index_default)
+            # repaired code: the full statement is demanded, no failure class is accepted
+            fid = None if FIXED else classify(case, loaded_cols, row, index_default)
             res.report(bad[0], dict(pub, row=i), bad[1], fid=fid)
             counts["fail:" + str(fid)] = counts.get("fail:" + str(fid), 0) + 1
 
@@ -463,7 +481,7 @@ def public_case(case):
 # ------------------------------------------------------------------ generators
 
 TAGS = ["Red", "Blue", "Green", "Square", "Label/x", "Item/Object", "Agent-action", "Sensory-event"]
-VALUE_TEMPLATES = ["Label/#", "Duration/# s", "(Label/#, Red)", "Age/#, Blue"]
+VALUE_TEMPLATES = ["Label/#", "Duration/# s", "(Label/#, Red)", "Age/#, Blue", "(Label/#, ID/#)"]
 NAMES = ["cat", "val", "resp", "a", "B", "z_1", "x-y", "trial_type", "c2", "Zed"]
 
 
@@ -647,6 +665,8 @@ CORPUS = [
     {"sidecar": {"val": {"HED": "({HED}, Label/#)"}}, "columns": ["val", "HED"],
      "rows": [["v", "Red"], ["v", NA], [NA, "Red"], ["v", ""]], "mode": "df"},
     {"sidecar": {"x": {"Description": "q"}}, "columns": ["x", "other"], "rows": [["1", "a"], ["2", "b"]], "mode": "df"},
+    # every '#' of a value template is the cell text
+    {"sidecar": {"val": {"HED": "(Label/#, ID/#), Red"}}, "columns": ["val"], "rows": [["7"], [NA]], "mode": "df"},
 ]
 for _c in CORPUS:
     _c["stream"] = "corpus"
@@ -655,7 +675,8 @@ for _c in CORPUS:
 # ------------------------------------------------------------------ replace_ref: exhaustive comparison with re.sub
 
 def fixed_replace_ref(text, oldvalue, newvalue="n/a"):
-    """the repair proposed in the report (what the model's fixed=true transcribes)"""
+    """the repair as first proposed (= what /repo now contains); only used with VERIF_C06_FIXED=0, to compare the
+    fixed=true scanner with something while the tree under test is still unrepaired"""
     if newvalue != "n/a" and newvalue != "":
         return text.replace(oldvalue, newvalue)
 
@@ -678,7 +699,9 @@ def fixed_replace_ref(text, oldvalue, newvalue="n/a"):
 def _rr(fixed, text, ref, nv):
     from hed.models.df_util import replace_ref
     try:
-        return (fixed_replace_ref if fixed else replace_ref)(text, "{" + ref + "}", nv)
+        # the model at fixed=FIXED is always compared with the REAL hed.models.df_util.replace_ref
+        f = replace_ref if bool(fixed) == bool(FIXED) else fixed_replace_ref
+        return f(text, "{" + ref + "}", nv)
     except Exception as e:  # noqa
         return "!" + exn_name(e)
 
@@ -703,9 +726,15 @@ def digest_chunk(args):
 
 def regex_exhaustive(tier, exe, res, pool, proof_ok):
     """replace_ref of the model vs the implementation on every symbol string up to the bound"""
-    if tier == "quick":
-        plan = [(0, "r", NA, 7), (0, "1", NA, 6), (0, "12", NA, 6), (0, "r", "", 5), (0, "r", "(b), c", 5), (1, "r", NA, 6),
-                (1, "r", "", 5), (1, "7", NA, 5)]
+    if FIXED:
+        # the repaired code: every entry compares the REAL replace_ref with the fixed=true scanner
+        if tier == "quick":
+            plan = [(1, "r", NA, 6), (1, "1", NA, 5), (1, "12", NA, 4), (1, "0", NA, 4), (1, "r", "", 5), (1, "r", "(b), c", 4)]
+        else:
+            plan = [(1, "r", NA, 8), (1, "1", NA, 7), (1, "12", NA, 6), (1, "0", NA, 6), (1, "r", "", 7), (1, "r", "(b), c", 6)]
+    elif tier == "quick":
+        plan = [(0, "r", NA, 6), (0, "1", NA, 5), (0, "12", NA, 5), (0, "r", "", 5), (0, "r", "(b), c", 4), (1, "r", NA, 5),
+                (1, "r", "", 4), (1, "7", NA, 4)]
     else:
         plan = [(0, "r", NA, 9), (0, "1", NA, 8), (0, "12", NA, 8), (0, "r", "", 7), (0, "r", "(b), c", 7), (1, "r", NA, 8),
                 (1, "r", "", 7), (1, "7", NA, 7), (0, "0", NA, 5)]
@@ -739,7 +768,7 @@ def regex_exhaustive(tier, exe, res, pool, proof_ok):
                     found = {"text": pre + q, "ref": c[1], "newvalue": c[2], "fixed": c[0], "impl": io_, "model": mo}
                     break
             res.violation("correspondence-replace_ref", found or {"chunk": list(map(str, c))},
-                          f"model and {'proposed fix' if c[0] else 'implementation'} differ: {found}", no_input=True)
+                          f"model(fixed={c[0]}) and {'implementation' if bool(c[0]) == bool(FIXED) else 'reference copy of the fix'} differ: {found}", no_input=True)
             if bad >= 3:
                 break
     return total, plan
@@ -822,8 +851,12 @@ def run(tier, seed, res, model_ok=True, proof_ok=True):
 
 
 def _run(tier, seed, res, model_ok, proof_ok, rng, scratch):
-    nval = 1500 if tier == "quick" else 20000
-    nmal = 600 if tier == "quick" else 8000
+    nval = 1000 if tier == "quick" else 20000
+    nmal = 400 if tier == "quick" else 8000
+    if not FIXED:
+        res.known_ids = dict(getattr(res, "known_ids", {}))
+        for k, v in LEGACY_FINDINGS.items():
+            res.known_ids.setdefault(k, {"id": k, "what": "(unrepaired code, VERIF_C06_FIXED=0) " + v})
     if not proof_ok:
         nval *= 3
         nmal *= 3
@@ -860,7 +893,7 @@ def _run(tier, seed, res, model_ok, proof_ok, rng, scratch):
                 res.violation("class-tables", {"codepoints": bad[:10]}, "\\s / reference class differ from CPython",
                               no_input=True)
             regex_total, plan = regex_exhaustive(tier, exe, res, pool, proof_ok)
-            lines, idx = model_lines(cases, impls)
+            lines, idx = model_lines(cases, impls, fixed=bool(FIXED))
             outs = C.run_driver(exe, lines, shards=int(C.JOBS))
             for i, m in zip(idx, outs):
                 diffs = compare_model(cases[i], impls[i], m)
@@ -932,6 +965,9 @@ def replay(payload):
         r = impl_case(case)
         res = C.Result(PROP)
         res.known_ids = {f["id"]: f for f in C.known_findings().get("findings", []) if f.get("property") == PROP}
+        if not FIXED:
+            for k, v in LEGACY_FINDINGS.items():
+                res.known_ids.setdefault(k, {"id": k, "what": v})
         oracle(case, r, res, {})
         print("impl:", {k: v for k, v in r.items() if k in ("series", "series2", "df", "refs", "exn_text", "setup_exn")})
         for fid, n in sorted(res.known.items()):
